@@ -18,6 +18,8 @@ func main() {
 	r.Assume("client knobs (exported variables) are shortened as in l2.init; the query worker timeouts (2 s doubling) are real; the simulated peers implement the protocol subset of DESIGN appendix B; the generator's blocks are the ground truth (cross-checked against btcd's validators on the harness side)")
 	r.Assume("a non-witness (BaseEncoding) request answered with the honest witness-stripped encoding of a block that HAS witness data is labelled 'ambig': the client bans such a peer (the commitment cannot be validated) and the property text does not decide whether it should; neither ban nor no-ban nor success is asserted there, only counted")
 	r.Assume("an invalid and a valid block sent back-to-back by the same peer reach the query worker in either order (one goroutine per message): there the ban is not required and a later failure is not counted against the client")
+	r.Assume("the client hands received messages to its query workers asynchronously (one goroutine per message): a block sent as a bystander to one request can be consumed as the answer to the NEXT request to that peer. Bystander blocks are therefore drawn from blocks no call ever requests; and a failing call may have spent one try on a worker whose peer the client had just disconnected, so the retry-budget rule allows one unobserved try per peer the client had reason to drop")
+	r.Assume("simulated peers answer inline (well inside the 2 s worker timeout); delayed answers, which a client may legitimately never look at, are not generated")
 	n := r.Pick(16, 250)
 	l2.Main(r, n, 300*time.Second, r.Pick(40, 300), c06.Scenario)
 }
